@@ -15,7 +15,7 @@ def seed():
 
 
 def graph_check(prop, tier, parts, *, level='model_checking', rule, assumptions=(), vacuity=None,
-                extra_cov=None):
+                extra_cov=None, enum_parts=()):
     """parts: list of dicts {harness, monitors, opts, label}.  Returns exit code."""
     t0 = time.time()
     target.load()
@@ -63,6 +63,32 @@ def graph_check(prop, tier, parts, *, level='model_checking', rule, assumptions=
                           'depth_completed': info['depth_completed'], 'levels': info['levels'],
                           'states_reached_not_expanded': info['states_seen'] - info['states'],
                           'disabled_by_cap': dict(res.disabled), 'wall_s': round(info['wall_s'], 2)})
+    # additional plain-enumeration parts (collection sequences, documents) of the same property
+    enum_cov = []
+    for part in enum_parts:
+        opts = dict(part.get('opts', {}))
+        opts['seed'] = sd
+        opts['prop'] = prop
+        res, info = explore.run_enum(part['worker'], part['items'], opts, part.get('chunk', 100),
+                                     part.get('time_cap', 150 if tier == 'quick' else 3000))
+        parents_by_part.append({})
+        for f in res.findings.values():
+            f['part'] = part['label']
+            f['_parents'] = len(parents_by_part) - 1
+            f.setdefault('before', None)
+            all_findings.append(f)
+        tot_trans += res.transitions
+        tot_nontrivial += res.nontrivial
+        tot_states += int(res.extra.get('states', 0))
+        for c in info['caps_hit']:
+            caps.append(f"{part['label']}: {c}")
+        for dst, src in ((by_outcome, res.by_outcome), (extra, res.extra), (by_class, res.by_class)):
+            for k, v in src.items():
+                dst[k] = dst.get(k, 0) + v
+        for smp in res.samples[:2]:
+            samples.append({'part': part['label'], 'case': smp})
+        enum_cov.append({'part': part['label'], 'engine': 'enumeration', 'items': info['items'],
+                         'executions': res.transitions, 'wall_s': round(info['wall_s'], 2)})
     # merge findings with the same signature across parts
     merged = {}
     for f in all_findings:
@@ -73,6 +99,8 @@ def graph_check(prop, tier, parts, *, level='model_checking', rule, assumptions=
 
     def replay_extra(f):
         parents = parents_by_part[f['_parents']]
+        if not f.get('before'):
+            return {}
         init, hist = explore.history_of(parents, f['before'])
         return {'history_initial_state': init, 'history_messages': hist,
                 'how_to_replay': './check --replay <this file>'}
@@ -104,7 +132,7 @@ def graph_check(prop, tier, parts, *, level='model_checking', rule, assumptions=
                        '(otherwise the stated depth bound applies)',
         'caps_hit': caps,
         'depth_bounds': bounds,
-        'parts': cov_parts,
+        'parts': cov_parts + enum_cov,
         'transitions_by_message_class': dict(sorted(by_kind.items())),
         'distinct_outcome_classes': dict(sorted(by_outcome.items(), key=lambda kv: -kv[1])),
         'distinct_case_classes': len(by_class),
